@@ -30,7 +30,7 @@ PCreate(n) == {[ident |-> i, to |-> createC'[n][i].to, from |-> createC'[n][i].f
                 toPeer |-> createC'[n][i].toPeer] : i \in DOMAIN createC'[n]}
 \* layers that authenticate, counted from the outside (what the harness measures on the real bytes)
 RECURSIVE VDepth(_)
-VDepth(L) == IF L = <<>> \/ ~Head(L).ok THEN 0 ELSE 1 + VDepth(Tail(L))
+VDepth(L) == IF L = <<>> \/ ~Head(L).ok \/ Head(L).k = AdvKey THEN 0 ELSE 1 + VDepth(Tail(L))
 PNet == {IF d.t = "cell" THEN [id |-> d.id, src |-> d.src, dst |-> d.dst, t |-> "cell", cid |-> d.cid, plain |-> d.plain,
                                early |-> d.early, depth |-> VDepth(d.L)]
          ELSE [id |-> d.id, src |-> d.src, dst |-> d.dst, t |-> "destroy", cid |-> d.cid, signer |-> d.signer] : d \in net'}
@@ -70,12 +70,13 @@ Step(e) ==
     [] e.a = "RetryTimeout"  -> RetryTimeout(e.n, e.cid)
     [] e.a = "CacheTimeout"  -> CacheTimeout(e.n, e.kind, e.k)
     [] e.a = "Tamper"        -> \E d \in net : d.id = e.id /\ Tamper(d)
+    [] e.a = "TamperHeader"  -> \E d \in net : d.id = e.id /\ TamperHeader(d, e.what)
     [] e.a = "Splice"        -> \E d \in net : d.id = e.id /\ Splice(d, e.cid)
     [] e.a = "Inject"        -> Inject(e.src, e.dst, e.cid, e.mt)
     [] e.a = "AdvCreate"     -> AdvCreate(e.src, e.dst, e.cid)
     [] e.a = "AdvPlain"      -> AdvPlain(e.src, e.dst, e.cid, e.mt)
     [] e.a = "ForgeDestroy"  -> ForgeDestroy(e.src, e.dst, e.cid, e.signer)
-    [] e.a = "MangleAnswer"  -> \E d \in net : d.id = e.id /\ MangleAnswer(d, e.how)
+    [] e.a = "MangleAnswer"  -> \E d \in net : d.id = e.id /\ MangleAnswer(d, e.how, e.cid)
     [] e.a = "Noop"          -> UNCHANGED <<circ, relay, exit, retryC, createdC, createC, pingC, pend, net, ctr, now,
                                              sweepAt, pingAt, hist, budget>>
     [] OTHER                 -> FALSE
@@ -85,12 +86,14 @@ TraceInit == Init /\ tid \in 1..Len(Traces) /\ l = 1
 TraceNext ==
   /\ l <= Len(Ev)
   /\ Step(Ev[l])
-  /\ wire' = (IF TrackWire THEN wire \cup net' ELSE wire)
-  /\ PostOK(Ev[l].post)
+  /\ Tail2
+  /\ ("nocheck" \in DOMAIN Ev[l]) \/ PostOK(Ev[l].post)
   /\ l' = l + 1 /\ UNCHANGED tid
 
 TraceSpec == TraceInit /\ [][TraceNext]_tvars
 
 (* total verdict: the trace is a behaviour of Onion.tla iff every logged step is enabled *)
 TraceAccepted == l <= Len(Ev) => ENABLED TraceNext
+\* debugging aid: a trace whose last event is marked "nocheck" stops here and prints the spec's state after it
+DebugStop == ~(l = Len(Ev) + 1 /\ Len(Ev) > 0 /\ "nocheck" \in DOMAIN Ev[Len(Ev)])
 =============================================================================
